@@ -66,11 +66,26 @@ def gen_crc(path, maxlen):
                 f.write("P:%d:%d %s\n" % (p, L, crc_line(pattern(p, L))))
 
 
-def gen_md5(path, maxlen):
+def gen_md5(path, maxlen, big):
     with open(path, "w") as f:
         for L in range(maxlen + 1):
             for p in (2, 5):
                 f.write("M:%d:%d %s\n" % (p, L, hashlib.md5(pattern(p, L)).hexdigest()))
+        if big:                              # messages of >= 2^29 bytes (sweep md5big): hashlib fed block by block
+            zeros = bytes(1 << 20)
+            h = hashlib.md5()
+            for _ in range(512):
+                h.update(zeros)
+            h.update(bytes(5))
+            f.write("Z:%d %s\n" % ((1 << 29) + 5, h.hexdigest()))
+            blk = pattern(2, 1 << 20)
+            base = hashlib.md5()
+            for _ in range(512):
+                base.update(blk)
+            for t in (0, 1, 55, 56, 64):
+                h = base.copy()
+                h.update(pattern(5, t))
+                f.write("MB:%d %s\n" % (t, h.hexdigest()))
 
 
 # ---------------------------------------------------------------- pure-python AES-128 (FIPS-197), independent of aes.cpp
@@ -160,13 +175,14 @@ def main(tier, args):
     thorough = tier == "thorough"
     crc_f, md5_f, aes_f = (os.path.join(bdir, n) for n in ("expect_crc_%s.txt" % tier, "expect_md5_%s.txt" % tier, "expect_aes.txt"))
     pool = ThreadPoolExecutor(3)
-    gens = [pool.submit(gen_crc, crc_f, 2000 if thorough else 300), pool.submit(gen_md5, md5_f, 300 if thorough else 130),
+    gens = [pool.submit(gen_crc, crc_f, 2000 if thorough else 300), pool.submit(gen_md5, md5_f, 300 if thorough else 130, thorough),
             pool.submit(gen_aes, aes_f)]
     exe = vf.build("C19/harness", [os.path.join(D, f) for f in ("harness.cpp", "sweep_b64.cpp", "sweep_hexurl.cpp", "sweep_sintser.cpp", "sweep_digest.cpp")],
                    vf.module_sources("util/base64.cpp", "util/string.cpp", "util/scalable_integer.cpp", "util/serializer.cpp", "http/url.cpp",
                                      "util/crc.cpp", "util/checksum.cpp", "crypto/md5.cpp", "crypto/aes.cpp"),
                    mode="asan",
-                   extra_flags=["-fsanitize-recover=address,undefined"],       # report + continue; hooks in harness.cpp record the input
+                   extra_flags=["-fsanitize-recover=address,undefined",        # report + continue; hooks in harness.cpp record the input
+                                "-D_GLIBCXX_ASSERTIONS"],                       # std::string/vector operator[], front(), back() beyond size() abort -> SIGABRT handler prints the case
                    harness_flags=["-fno-sanitize=undefined"])                  # UBSan only on the cpp-tbox sources (compile time of the harness)
     for g in gens:
         g.result()
@@ -174,11 +190,11 @@ def main(tier, args):
     # (sweep, number of processes, expect file)
     if thorough:
         plan = [("b64-rt", 16, ""), ("b64-dec", 16, ""), ("hex-rt", 16, ""), ("hex-dec", 16, ""), ("url-rt", 16, ""), ("url-dec", 16, ""),
-                ("sint", 1, ""), ("ser", 8, ""), ("crc", 1, crc_f), ("md5", 8, md5_f), ("aes", 16, aes_f)]
+                ("sint", 1, ""), ("ser", 8, ""), ("crc", 1, crc_f), ("md5", 8, md5_f), ("md5big", 1, md5_f), ("aes", 16, aes_f)]
         deadline = 1200
     else:
         plan = [("b64-dec", 8, ""), ("url-dec", 3, ""), ("b64-rt", 1, ""), ("hex-rt", 1, ""), ("hex-dec", 2, ""), ("url-rt", 1, ""),
-                ("sint", 1, ""), ("ser", 1, ""), ("crc", 1, crc_f), ("md5", 1, md5_f), ("aes", 2, aes_f)]
+                ("md5big", 1, md5_f), ("sint", 1, ""), ("ser", 1, ""), ("crc", 1, crc_f), ("md5", 1, md5_f), ("aes", 2, aes_f)]
         deadline = 60
     only = getattr(args, "only", None)
     cmds = []
@@ -189,29 +205,39 @@ def main(tier, args):
             cmds.append(("%s.%d" % (sweep, part), [exe, sweep, tier, str(part), str(n)] + ([ef] if ef else [])))
     res = vf.Result()
     log = open(os.path.join(bdir, "log.txt"), "w")
-    vf.run_procs(res, cmds, log=log, env={"VERIF_DEADLINE_S": str(deadline),
+    vf.run_procs(res, cmds, log=log, timeout=4 * deadline + 300, env={"VERIF_DEADLINE_S": str(deadline),
                                           "ASAN_OPTIONS": "detect_leaks=0:abort_on_error=0:halt_on_error=0",
                                           "UBSAN_OPTIONS": "print_stacktrace=1:halt_on_error=0"})
     res.infos.insert(0, "build+expectation generation %.1fs" % t_build)
-    a3, a4, ml = ("all 256 values", "the 64-value alphabet A64 (16 777 216 strings)", 300) if thorough else ("the 20-value boundary alphabet A20", "A20 (160 000 strings)", 66)
+    a3, a4, ml = ("all 256 values", "the 64-value alphabet A64 (16 777 216 strings)", "300, 65533-65535") if thorough else ("the 20-value boundary alphabet A20", "A20 (160 000 strings)", "66, 255-257")
     vf.finish(PID, tier, res, t0,
-              rule="Engine I exhaustive sweeps on the real code under ASan+UBSan, outputs in new uint8_t[capacity] of exactly the advertised size. "
-                   "Encoder inputs (Base64, hex, URL): all byte strings of length 0-2 over 0..255, length 3 over %s, lengths 4-%d x 6 patterns; "
-                   "decode(encode(x))==x, length == EncodeLength/DecodeLength/2n(+delimiters), all overloads, capacities {exact, exact-1, 0}, vs RFC 4648/3986 references. "
+              rule="Engine I exhaustive sweeps on the real code under ASan+UBSan+_GLIBCXX_ASSERTIONS, outputs in new uint8_t[capacity] of exactly the advertised size. "
+                   "Encoder inputs (Base64, hex, URL): all byte strings of length 0-2 over 0..255, length 3 over %s, lengths 4-%s x 6 patterns; "
+                   "decode(encode(x))==x, length == EncodeLength/DecodeLength/2n(+delimiters), all overloads, capacities {exact, exact-1, 0}, vs RFC 4648/3986 references; "
+                   "hex: upper/lower x delimiters {none,' ',':',', ',': '} and the default arguments, 65534/65535 bytes (uint16_t limit), a 131074-digit string into capacity 65535. "
                    "Decoder inputs: Base64 and URL all strings of length 0-3 over 0..255 (16 843 009), hex all strings of length 0-2 over 0..255 and length 3 over %s, Base64 length 4 over %s%s, every truncation and every single-byte A20 substitution "
                    "of valid encodings; capacities {DecodeLength, -1, 0, max}: strictly valid input -> reference bytes, anything else -> no sanitizer report, result <= capacity. "
                    "Scalable integer: 0, 2^64-1, +-2 around the 9 length boundaries, 2^k-1/2^k/2^k+1 (k=0..63)%s x buffer size 0..11 (dump, parse, truncation); parser on all byte "
-                   "strings of length <=2%s and c^k / c^k t for k=0..12. Serializer/Deserializer: every sequence of 0-%d fields over {u8,u16,u32,u64,blob} x endian x 3 value sets x "
-                   "3 API families x raw capacity {exact,-1,0} + vector mode, deserializer size {exact,-1,0}. CRC-16/32 (3 seeds), checksum-8/16: all strings of length <=2 and "
-                   "lengths 3-%d x 6 patterns vs bitwise references and python zlib/binascii/RFC 1071. MD5: lengths 0-%d x 2 patterns x {single, every 2-way split, %s3-way grid, "
-                   "byte-at-a-time} vs hashlib. AES-128: 11 published known answers, all 128x128 single-bit key/block pairs%s vs a FIPS-197 reference and a pure-python AES, "
-                   "invcipher(cipher(x))==x."
+                   "strings of length <=2%s and c^k / c^k t for k=0..12. Serializer/Deserializer: (A) every sequence of 0-%d items over {u8,u16,u32,u64,blob,SWITCH endian mid-stream} x "
+                   "constructed {big, little, without endian argument} x 3 value sets x 3 API families (append/fetch, POD/NoCopy, operator<< >>; SWITCH by setEndian with the returned old value "
+                   "checked, or by << / >> Endian), (B) every sequence of 0-%d items over those plus the {i8,i16,i32,i64,float,double} stream operators (bit patterns incl. MIN, MAX, -1, NaN payloads) x 5 value sets; "
+                   "each x raw capacity {exact,-1,0} + vector mode, deserializer size {exact,-1,0}; at EVERY deserializer position: checkSize/skip/fetchNoCopy/fetch/fetchPOD of rest+1, rest+2, 2^63, "
+                   "SIZE_MAX, SIZE_MAX-pos+{0,1,2} refused with position and output unchanged, set_pos(p) for p in {0,pos,size-1,size,size+1,SIZE_MAX} succeeds iff p<size and reads continue from p. "
+                   "CRC-16/32 (3 seeds), checksum-8/16: all strings of length <=2 and "
+                   "lengths 3-%d x 6 patterns vs bitwise references and python zlib/binascii/RFC 1071, 21 lengths up to 1 MiB+1 x 3 fills. MD5: lengths 0-%d x 2 patterns x {single, every 2-way split, %s3-way grid, "
+                   "byte-at-a-time, two instances fed alternately} vs hashlib; 2^29+5 zero bytes (bit counter carries into its high word) as %s. AES-128: 11 published known answers, all 128x128 single-bit key/block pairs%s vs a FIPS-197 reference and a pure-python AES, "
+                   "invcipher(cipher(x))==x, each on a fresh object, on an unkeyed object after setKey, and on an object keyed with another key then re-keyed, working in place (input==output), "
+                   "a second block on the same object, re-keyed back and forth, with a second live object under the other key."
                    % (a3, ml, "all 256 values" if thorough else "the 40-value alphabet A40", a4, ", hex/URL length 4 over A40 (2 560 000)" if thorough else "",
-                      ", +-20000 around every boundary" if thorough else "", " and 3" if thorough else "", 6 if thorough else 4,
+                      ", +-20000 around every boundary" if thorough else "", " and 3" if thorough else "", 6 if thorough else 4, 4 if thorough else 3,
                       2000 if thorough else 300, 300 if thorough else 130, "every 3-way split for L<=130, " if thorough else "",
+                      "one update, 2^28+3|2^28+2, 2^29|5, 5|2^29, and a 1 MiB pattern block x 512 + tails {0,1,55,56,64}" if thorough else "one update and as 2^28+3|2^28+2 (low-word wrap)",
                       ", bit keys x byte blocks, byte keys x bit blocks, 4096 patterned pairs" if thorough else ""),
               assumptions=["both sanitizer runtimes report a faulting code location once per process; the input shown is the first one in enumeration order (shortest first) reaching it",
                            "a decoder that leniently accepts an invalid string without any memory error is not counted as a violation (shown as outcome)",
-                           "for std::string-taking functions (hex, URL, Base64 string overloads) an over-read that stays inside the std::string's own storage is not observable",
+                           "for std::string-taking functions (hex, URL, Base64 string overloads) an over-read through operator[]/front/back aborts (_GLIBCXX_ASSERTIONS); one through a raw data() pointer that stays inside the string's capacity is not observable",
+                           "AES cipher/invcipher with input == output is read as part of 'block encryption equals the reference' (every in-tree and conventional use allows it)",
+                           "a Serializer append whose CLAIMED source length is >= SIZE_MAX-pos (no such object can exist) is outside the statement; the probe for it is off by default (C19_SER_HUGE_APPEND=1)",
+                           "a call into the real code that never returns is reported by a SIGALRM watchdog at 3 x deadline + 120 s",
                            "MD5/AES equality is decided on the enumerated messages, keys and blocks only",
                            "isprint() on a negative char (url.cpp) is not diagnosed by ASan/UBSan; glibc's table covers -128..255"])
